@@ -287,6 +287,34 @@ theorem decoded_sigmaps (h : TxCodec.decodeTx b = some tx) :
     decide_eq_true_eq] at this
   exact ⟨this.1.2, fun e he => (this.2 e he).1⟩
 
+/-- Put together: on a decoded transaction the version / count / index guards of `structural`
+    (and the key-count guard of `validateOutputs`) can never fire — `Validate` re-checks what the
+    decoder already enforced; they matter only for transactions built in memory. The guards that
+    remain live are the ones about meaning (type, at least one input and output, extra limit by
+    asset and storage output, references ≤ `ReferencesCountLimit`). -/
+theorem decoded_structural_guards_idle (h : TxCodec.decodeTx b = some tx) :
+    ((toValidateTx E tx).version != Facts.Gen.common_TxVersionHashSignature) = false ∧
+    (decide ((toValidateTx E tx).inputs.length > Validate.sliceCountLimit) ||
+      decide ((toValidateTx E tx).outputs.length > Validate.sliceCountLimit) ||
+      decide ((toValidateTx E tx).references.length > Validate.sliceCountLimit)) = false ∧
+    (toValidateTx E tx).inputs.any (fun i => decide (i.index > Validate.inputIndexLimit)) = false ∧
+    (toValidateTx E tx).outputs.any (fun o => decide (o.keys.length > Validate.sliceCountLimit)) = false := by
+  have h1 := decoded_version E h
+  have h2 := decoded_inputs_le E h
+  have h3 := decoded_outputs_le E h
+  have h4 := decoded_references_le E h
+  have h5 := decoded_index_le E h
+  have h6 := decoded_keys_le E h
+  refine ⟨by simp [h1], ?_, ?_, ?_⟩
+  · simp only [Bool.or_eq_false_iff, decide_eq_false_iff_not, Nat.not_lt]
+    exact ⟨⟨h2, h3⟩, h4⟩
+  · rw [List.any_eq_false]
+    intro i hi
+    simpa using h5 i hi
+  · rw [List.any_eq_false]
+    intro o ho
+    simpa using h6 o ho
+
 end bounds
 
 /-! ## C05 over bytes -/
